@@ -120,6 +120,17 @@ rv('P', r'^read::names::NameBucketIter::<R>::next \| RemainderByZero', 'validato
 rv('P', r'^read::index::IndexSectionId::dwo_name \| unwrap', 'validator', 'rule W1 (C17): SectionId::dwo_name is Some for all ten IndexSectionId variants')
 rv('P', r'^read::op::generic_type \| unwrap', 'invariant', 'ReaderOffset::from_u64(0) is Ok for every offset type')
 
+def _value_guards(fnname):
+    path = 'read::value::Value::' + fnname
+    req = [{'fn': path, 'cmp': ['rhs@%s.0' % v, 'const:0']} for v in ('I8', 'U8', 'I16', 'U16', 'I32', 'U32', 'I64', 'U64')]
+    req.append({'fn': path, 'cmp': ['rhs BitAnd addr_mask', 'const:0']})
+    return req
+
+
+for _f in ('div', 'rem'):
+    rv('P', r'^read::value::Value::%s \| divcall' % _f, 'validator',
+       'the first match of Value::%s returns Err(DivisionByZero) when the divisor payload is 0 (generic: masked to the address size), for every variant; '
+       'the guard joins before the arithmetic match, which the dominating-edge analysis cannot follow' % _f, _value_guards(_f))
 # ---- P: invariants ------------------------------------------------------------------------
 rv('P', r'^<?read::util::ArrayVec', 'invariant', INV + 'ArrayVec keeps len <= capacity (stores to len only in try_push/try_insert after the capacity check, pop, clear) — audited by rule U2')
 rv('P', r'read::util::<impl read::util::sealed::Sealed for alloc::vec::Vec<T>>::grow \| alloc', 'invariant',
@@ -223,6 +234,36 @@ kf('P', r'^write::line::LineProgram::(generate_row|op_advance) \|', ['C01', 'C12
    'write::LineProgram::op_advance / generate_row do unchecked arithmetic on address offsets, operation indices, line deltas and the line encoding taken from the converted program '
    '(address_advance * maximum_operations_per_instruction, op_advance * line_range, ...); reached from ConvertLineProgram::convert with values chosen by the input, e.g. two '
    'DW_LNS_advance_pc of u64::MAX with maximum_operations_per_instruction 255', 'findings/demo/tests/line_convert_op_advance.rs')
+
+
+# ---- N: narrowing / sign-changing casts -----------------------------------------------------
+REINT = "intended two's-complement reinterpretation (no bits lost): "
+rv('N', r'as core::convert::From<R>>::from \| cast usize->u8 \| size_of\(\) as u8', 'invariant', 'size_of::<usize>() is 4 or 8')
+rv('N', r'as read::reader::ReaderOffset>::from_i16 \| cast i16->', 'reinterpret',
+   'sign extension of a branch displacement: ReaderOffset::from_i16 is documented to wrap and its only users add it with wrapping_add and bounds-check the result (compute_pc)')
+rv('N', r'^endianity::Endianity::read_i(16|32|64) \| cast u', 'reinterpret', REINT + 'signed fixed-width read = unsigned read of the same width, reinterpreted')
+rv('N', r'^read::reader::Reader::read_i8 \| cast u8->i8', 'reinterpret', REINT + 'signed byte read')
+rv('N', r'^leb128::read::(signed|unsigned) \| cast i32->u32 \| shift as u32', 'invariant', 'shift is one of 0,7,..,63 (never negative)')
+rv('N', r"^read::cfi::UnwindTable::<'a, 'ctx, R, S>::evaluate \| cast u64->i64", 'reinterpret',
+   REINT + 'ULEB offsets are stored in the i64 rule fields and multiplied with wrapping_mul, the modulo-2^64 behaviour the CFI evaluation documents')
+rv('N', r'^read::cfi::parse_encoded_value::\{closure#\d\} \| cast i(16|32|64)->u64', 'reinterpret',
+   REINT + 'source comment: signed encodings are sign-extended and returned as u64, then added to their base with wrapping addition')
+rv('N', r'^read::op::Evaluation::<R, S>::(evaluate_one_operation|resume_with_frame_base|resume_with_register) \| cast i64->u64', 'reinterpret',
+   REINT + 'signed offset added to a u64 base with wrapping_add (address arithmetic modulo the address size)')
+rv('N', r'^read::reader::ReaderAddress::min_tombstone \| cast i64->u64', 'invariant', 'constant -2 as u64')
+rv('N', r'^read::unit::AttributeValue::<R, Offset>::sdata_value \| cast u(8|16|32|64)->i', 'reinterpret',
+   REINT + 'DW_FORM_dataN read as unsigned and interpreted as signed by the accessor the caller chose (DWARF leaves the signedness of dataN to the attribute)')
+rv('N', r'^read::value::', 'reinterpret',
+   'typed DWARF values: conversion to a base type of a given width truncates / reinterprets by definition (DW_OP_convert, DW_OP_reinterpret, Value::from_u64 rustdoc "The result is truncated"); '
+   'generic values are masked to the address size before sign extension')
+rv('N', r'^write::op::convert::<impl write::op::Expression>::from \| cast i64->usize', 'reinterpret',
+   'branch displacement added with wrapping_add to the operation offset; the result must be found by binary_search among the decoded operation offsets or the conversion fails with InvalidBranchTarget')
+kf('N', r'^write::cfi::convert::', ['C12', 'C01'],
+   'write::cfi conversion narrows operands with plain `as i32` / `as u32` / `as u8` / `as i8` casts ("TODO: validate integer type conversions"): e.g. DW_CFA_def_cfa_offset 0x1_0000_0020 '
+   'is converted to a CFA offset of 32 without any error (silent truncation)', 'findings/demo/tests/cfi_convert_truncation.rs')
+kf('N', r'^write::line::LineProgram::(generate_row|new) \|', ['C12', 'C01'],
+   'same defect family as the P findings on write::LineProgram::generate_row / new: line deltas and the line encoding are cast between signed and unsigned without validation when reached from conversion',
+   'findings/demo/tests/line_convert_op_advance.rs')
 
 
 def main():
